@@ -640,7 +640,7 @@ func (comp) Gen(r *rand.Rand, tier string, emit func([]string)) {
 	for i := 0; i < nShort; i++ {
 		g := geos6[r.Intn(len(geos6))]
 		clients := 2 + r.Intn(3)
-		seq := []string{g.newOp(300)}
+		seq := []string{g.newOp(hx.Pick(r, []int{300, 300, 290}))}
 		for j, k := 0, 2+r.Intn(10); j < k; j++ {
 			seq = append(seq, g.randOp(r, clients))
 		}
